@@ -9,6 +9,7 @@
 import Fir.Spec.FitCrop
 import Fir.Model.FitCrop
 import Fir.Proofs.FitCropLemmas
+import Mathlib.Order.Monotone.Basic
 
 namespace Fir.C15
 open Fir.Spec
@@ -46,6 +47,42 @@ theorem fitQ_aspect_exact (sw sh dw dh cx cy : ℚ) (hsw : 0 < sw) (hsh : 0 < sh
   rcases fitQ_aspect 0 sw sh dw dh cx cy (le_refl 0) hsw hsh hdw hdh with h | ⟨h, _, _⟩
   · exact h
   · exact absurd h (not_lt.mpr (abs_nonneg _))
+
+/-! ### the rounded computation (`fitF`: the code's operation order, every operation rounded by an
+    arbitrary monotone `fl`) - clauses that hold for the f64 code whatever the rounding does -/
+
+/-- spans the full source in at least one dimension: exact for the floating-point code too (the branch
+    that crops one side returns the other side untouched) -/
+theorem fitF_spans (fl : ℚ → ℚ) (eps sw sh dw dh cx cy : ℚ) :
+    let b := fitF fl eps sw sh dw dh cx cy
+    b.2.2.1 = sw ∨ b.2.2.2 = sh := by
+  simp only [fitF]
+  split_ifs <;> simp
+
+/-- the origin is never negative and never exceeds the (rounded) removed margin, for every centering
+    (incl. values far outside [0, 1], which are clamped), provided the crop size does not exceed the source
+    size - the one clause that needs IEEE's last-ulp behaviour and is established by enumeration -/
+theorem fitF_origin (fl : ℚ → ℚ) (hfl : Monotone fl) (h0 : fl 0 = 0) (hid : ∀ x, fl (fl x) = fl x)
+    (eps sw sh dw dh cx cy : ℚ) :
+    let b := fitF fl eps sw sh dw dh cx cy
+    (b.2.2.1 ≤ sw → 0 ≤ b.1 ∧ b.1 ≤ fl (sw - b.2.2.1)) ∧ (b.2.2.2 ≤ sh → 0 ≤ b.2.1 ∧ b.2.1 ≤ fl (sh - b.2.2.2)) := by
+  have key : ∀ (s c t : ℚ), c ≤ s → 0 ≤ fl (fl (s - c) * max 0 (min t 1)) ∧ fl (fl (s - c) * max 0 (min t 1)) ≤ fl (s - c) := by
+    intro s c t hcs
+    have hm : 0 ≤ fl (s - c) := by
+      have := hfl (show (0 : ℚ) ≤ s - c by linarith); rwa [h0] at this
+    have ht0 : (0 : ℚ) ≤ max 0 (min t 1) := le_max_left _ _
+    have ht1 : max 0 (min t 1) ≤ (1 : ℚ) := max_le (by norm_num) (min_le_right _ _)
+    constructor
+    · have := hfl (mul_nonneg hm ht0); rwa [h0] at this
+    · calc fl (fl (s - c) * max 0 (min t 1)) ≤ fl (fl (s - c)) := hfl (by nlinarith)
+        _ = fl (s - c) := hid _
+  simp only [fitF]
+  exact ⟨fun h => key _ _ _ h, fun h => key _ _ _ h⟩
+
+/-- centering 0 puts the box at the origin, exactly -/
+theorem fitF_centering_zero (fl : ℚ → ℚ) (h0 : fl 0 = 0) (eps sw sh dw dh : ℚ) :
+    (fitF fl eps sw sh dw dh 0 0).1 = 0 ∧ (fitF fl eps sw sh dw dh 0 0).2.1 = 0 := by
+  simp [fitF, h0]
 
 /-- the source text of CropBox::fit_src_into_dst_size is exactly what `Fir.fitCrop` mirrors -/
 theorem fit_source_as_modelled : Fir.Gen.fitCropSource = Fir.fitCropSourceModelled := by rfl
